@@ -13,7 +13,7 @@ from ..callgraph import CallGraph
 from ..selftest import Seed
 
 META = {
-    "technique": "flush-before-use must-dataflow on every path of every table method, encapsulation (who-may-access), no-caching rule for the flushing accessor",
+    "technique": "flush-before-use must-dataflow on every path of every table method, row-source dataflow through the flush method (old rows + buffered rows reach the frame on every exit), encapsulation (who-may-access), no-caching rule for the flushing accessor",
     "level_text": "Static proof over all paths of all methods of the table class that the insert buffer is flushed before any row-dependent use of the frame and before any change of the state the flush reads, plus repository-wide encapsulation of the frame/buffer. Quantifies over paths and methods (including readers nobody tests); does not decide pandas results.",
     "level_note": "decides the structural clause below from source; does not decide the behaviour. Trusted: attribute names are resolved syntactically on `self`; the table class is discovered by role (a buffer appended to by inserts and drained by exactly one method).",
     "explanation": (
@@ -21,7 +21,9 @@ META = {
         "'every method of the table class flushes the insert buffer before any use of the frame other than .columns, and before "
         "writing any attribute the flush itself reads; the frame and the buffer are never touched outside the class; a frame "
         "returned by the flushing accessor is never cached by a consumer; index reset drops the helper columns index creation "
-        "adds'. It decides that buffering is structurally invisible, not the merge results of pandas."),
+        "adds; inserts append their argument to the buffer on every path; the flush returns early only on an empty buffer and otherwise "
+        "re-assigns the frame from old rows followed by buffered rows, resets the buffer only afterwards, re-sorts on the indexed branch, and "
+        "never loses the buffered rows on a raising path; index build/reset keep the index-state attribute in step'. It decides that buffering is structurally invisible, not the merge results of pandas."),
     "assumptions": ["no reflective access (getattr/__dict__) to the frame or buffer; checked: none in klongpy/db"],
 }
 
@@ -29,10 +31,11 @@ MOD = "db/sys_fn_db"
 
 
 def discover_table(repo):
-    """the class with a list attribute appended to by insert* methods and reset by exactly one method"""
+    """the class with a list attribute created empty in __init__ and appended to by insert* methods; the flush is the one other
+    method that reads that attribute and assigns another attribute of self (the frame)"""
     m = repo.module(MOD)
     for cname, c in m.classes.items():
-        appended, drained = {}, {}
+        appended, inited, readers = {}, set(), {}
         for f in m.funcs.values():
             if f.cls != cname or f.parent is not None:
                 continue
@@ -41,15 +44,26 @@ def discover_table(repo):
                     d = dotted(n.func.value)
                     if d and d.startswith("self."):
                         appended.setdefault(d[5:], set()).add(f.name)
-                if isinstance(n, ast.Assign) and isinstance(n.value, (ast.List,)) and not n.value.elts and f.name != "__init__":
+                if isinstance(n, ast.Assign) and isinstance(n.value, (ast.List,)) and not n.value.elts and f.name == "__init__":
                     for t in n.targets:
                         d = dotted(t)
                         if d and d.startswith("self."):
-                            drained.setdefault(d[5:], set()).add(f.name)
+                            inited.add(d[5:])
+                if isinstance(n, ast.Attribute) and isinstance(n.value, ast.Name) and n.value.id == "self" and isinstance(n.ctx, ast.Load) \
+                        and f.name != "__init__" and not f.name.startswith("insert"):
+                    readers.setdefault(n.attr, set()).add(f.name)
         for attr in appended:
-            if attr in drained and len(drained[attr]) == 1 and any(x.startswith("insert") for x in appended[attr]):
-                return cname, attr, next(iter(drained[attr]))
-    raise AnalysisError(f"table class not found in {MOD} (no buffer appended by insert* and drained by one method)")
+            if attr in inited and any(x.startswith("insert") for x in appended[attr]):
+                cands = []
+                for fname in sorted(readers.get(attr, ())):
+                    fn = m.funcs[f"{cname}.{fname}"]
+                    if any(isinstance(n, ast.Assign) and any((dotted(t) or "").startswith("self.") and dotted(t) != f"self.{attr}" for t in n.targets)
+                           for n in walk_local(fn.node)):
+                        cands.append(fname)
+                if len(cands) == 1:
+                    return cname, attr, cands[0]
+                raise AnalysisError(f"flush method of {cname} not identified: methods reading self.{attr} and assigning an attribute: {cands}")
+    raise AnalysisError(f"table class not found in {MOD} (no list attribute created in __init__ and appended to by insert*)")
 
 
 def frame_attr(repo, cname, flush):
@@ -107,6 +121,236 @@ class FlushSem(Sem):
         return self._scan(test, state)
 
 
+class MergeSem(Sem):
+    """C19-R6: which row sources the frame holds on each path of the flush method.
+    state = (buffer state, sources held by the frame, ((local, sources), ...), (on the has_index() branch?, frame re-assigned there and not yet re-sorted));
+    buffer state: 'full' (may hold rows), 'empty' (tested empty at entry), 'cleared' (reset after entry), 'mixed'"""
+    base_exc_escapes = False
+
+    def __init__(self, buf, frame):
+        self.buf, self.frame = buf, frame
+        self.order_faults = []
+
+    def join2(self, a, b):
+        ba, fa, ea, (ia, sa_) = a
+        bb, fb, eb, (ib, sb_) = b
+        da, db = dict(ea), dict(eb)
+        env = tuple(sorted((k, da[k] & db[k]) for k in da.keys() & db.keys()))
+        return (ba if ba == bb else "mixed", fa & fb, env, (ia if ia == ib else None, sa_ or sb_))
+
+    def srcs(self, e, state):
+        b, fr, env, _ix = state
+        env = dict(env)
+        out = set()
+        for n in ast.walk(e):
+            if isinstance(n, ast.Attribute) and isinstance(n.value, ast.Name) and n.value.id == "self" and isinstance(n.ctx, ast.Load):
+                if n.attr == self.frame:
+                    out |= fr
+                elif n.attr == self.buf and b in ("full", "mixed"):
+                    out.add("buf")
+            elif isinstance(n, ast.Name) and isinstance(n.ctx, ast.Load):
+                out |= env.get(n.id, frozenset())
+        return frozenset(out)
+
+    def _order(self, e, state):
+        """within one list/concatenation expression the old rows come before the buffered ones"""
+        for n in ast.walk(e):
+            seq = None
+            if isinstance(n, (ast.List, ast.Tuple)) and len(n.elts) >= 2:
+                seq = n.elts
+            elif isinstance(n, ast.BinOp) and isinstance(n.op, ast.Add):
+                seq = [n.left, n.right]
+            if not seq:
+                continue
+            tags = [self.srcs(x, state) for x in seq]
+            first_buf = next((i for i, t in enumerate(tags) if "buf" in t and "old" not in t), None)
+            last_old = next((i for i in reversed(range(len(tags))) if "old" in tags[i] and "buf" not in tags[i]), None)
+            if first_buf is not None and last_old is not None and first_buf < last_old:
+                self.order_faults.append(n)
+
+    def refine(self, test, state):
+        b, fr, env, ix = state
+        if isinstance(test, ast.Call) and dotted(test.func) == "self.has_index":
+            return (b, fr, env, (True, ix[1])), state
+        t, pol = test, True
+        while isinstance(t, ast.UnaryOp) and isinstance(t.op, ast.Not):
+            t, pol = t.operand, not pol
+        empty_when = None          # polarity of `test` under which the buffer is empty
+        if dotted(t) == f"self.{self.buf}":
+            empty_when = not pol
+        elif isinstance(t, ast.Compare) and len(t.ops) == 1 and isinstance(t.left, ast.Call) and callee_name(t.left) == "len" and t.left.args \
+                and dotted(t.left.args[0]) == f"self.{self.buf}" and isinstance(t.comparators[0], ast.Constant) and t.comparators[0].value == 0:
+            if isinstance(t.ops[0], ast.Eq):
+                empty_when = pol
+            elif isinstance(t.ops[0], (ast.Gt, ast.NotEq)):
+                empty_when = not pol
+        if empty_when is None or b != "full":
+            return state, state
+        e = ("empty", fr, env, ix)
+        return (e, state) if empty_when else (state, e)
+
+    def transfer(self, st, state):
+        b, fr, env, (indexed, unsorted) = state
+        if isinstance(st, (ast.Assign, ast.AugAssign, ast.AnnAssign)) and getattr(st, "value", None) is not None:
+            self._order(st.value, state)
+            aug = isinstance(st, ast.AugAssign)
+            envd = dict(env)
+            pairs = []
+            for t in (st.targets if isinstance(st, ast.Assign) else [st.target]):
+                if isinstance(t, (ast.Tuple, ast.List)) and isinstance(st.value, (ast.Tuple, ast.List)) and len(t.elts) == len(st.value.elts):
+                    pairs += list(zip(t.elts, st.value.elts))
+                elif isinstance(t, (ast.Tuple, ast.List)):
+                    pairs += [(x, st.value) for x in t.elts]
+                else:
+                    pairs.append((t, st.value))
+            vals = [(t, vn, self.srcs(vn, state)) for t, vn in pairs]      # right-hand sides are evaluated before any store
+            for t, vn, v in vals:
+                if isinstance(t, ast.Name):
+                    envd[t.id] = (envd.get(t.id, frozenset()) | v) if aug else v
+                    continue
+                d = dotted(t)
+                if d == f"self.{self.frame}":
+                    fr = (fr | v) if aug else v
+                    unsorted = indexed is True and not (isinstance(vn, ast.Call) and isinstance(vn.func, ast.Attribute) and vn.func.attr == "sort_index")
+                elif d == f"self.{self.buf}":
+                    b = "cleared" if isinstance(vn, ast.List) and not vn.elts and not aug else "mixed"
+                else:
+                    base = t
+                    while isinstance(base, (ast.Subscript, ast.Attribute)) and dotted(base) != f"self.{self.frame}":
+                        base = base.value
+                    if dotted(base) == f"self.{self.frame}":
+                        fr = fr | v          # partial update of the frame: keeps what it had (and the order it had)
+                    elif isinstance(base, ast.Name):
+                        envd[base.id] = envd.get(base.id, frozenset()) | v
+            env = tuple(sorted(envd.items()))
+        elif isinstance(st, ast.Expr):
+            self._order(st.value, state)
+            for c in calls_in(st):
+                if isinstance(c.func, ast.Attribute) and dotted(c.func.value) == f"self.{self.buf}" and c.func.attr in ("clear",):
+                    b = "cleared"
+                if isinstance(c.func, ast.Attribute) and dotted(c.func.value) == f"self.{self.frame}" and c.func.attr == "sort_index" \
+                        and any(k.arg == "inplace" and isinstance(k.value, ast.Constant) and k.value.value is True for k in c.keywords):
+                    unsorted = False
+        return (b, fr, env, (indexed, unsorted))
+
+
+def _flush_integrity(ctx, repo, m, cname, buf, flush, frame, methods):
+    fflush = repo.fn(f"{MOD}:{cname}.{flush}")
+    # (a) inserts append their argument to the buffer on every path, at the end
+    n_ins = 0
+    for f in methods:
+        if not f.name.startswith("insert"):
+            continue
+        n_ins += 1
+        ctx.instance("C19-R6", f.fq, "append to buffer")
+        params = [p for p in f.params() if p != "self"]
+
+        class App(Sem):
+            base_exc_escapes = False
+
+            def join2(self, a, b):
+                return a and b
+
+            def transfer(s, st, state):
+                for c in calls_in(st):
+                    if isinstance(c.func, ast.Attribute) and dotted(c.func.value) == f"self.{buf}" and c.func.attr in ("append", "extend") \
+                            and len(c.args) == 1 and any(isinstance(x, ast.Name) and x.id in params for x in ast.walk(c.args[0])):
+                        return True
+                return state
+        exits = App().run(f.node, False)
+        bad = [e for e in exits if e.kind == "return" and not e.state]
+        ctx.ob("C19-R6", f.fq, f"every normal path appends the row argument to self.{buf} (append/extend: arrival order)", not bad and any(e.kind == "return" for e in exits),
+               node=bad[0].node if bad else f.node, construct=f"{f.name} does not buffer its argument",
+               msg=f"{cname}.{f.name} can return without appending its argument to self.{buf}: the inserted rows are lost",
+               path=f"entry {f.fq} -> exit line {bad[0].line if bad else f.node.lineno}")
+        for c in calls_in(f.node):
+            if isinstance(c.func, ast.Attribute) and dotted(c.func.value) == f"self.{buf}" and c.func.attr not in ("append", "extend"):
+                ctx.ob("C19-R6", f.fq, "the buffer is only appended to", False, node=c, construct=f"self.{buf}.{c.func.attr} in {f.name}",
+                       msg=f"{cname}.{f.name} uses self.{buf}.{c.func.attr}(): buffered rows no longer sit in arrival order")
+    ctx.floor("C19-R6", "insert methods", n_ins, 2)
+    # (b) the flush merges: on every normal exit either the buffer was empty at entry, or the frame holds old+buffered rows and the buffer is reset
+    ctx.instance("C19-R6", fflush.fq, "merge")
+    sem = MergeSem(buf, frame)
+    exits = sem.run(fflush.node, ("full", frozenset({"old"}), (), (None, False)))
+    n_exit = 0
+    for e in exits:
+        if e.kind != "return":
+            continue
+        n_exit += 1
+        b, fr, _env, (indexed, unsorted) = e.state
+        if b != "empty":
+            ctx.ob("C19-R6", fflush.fq, "indexed flush: the frame is re-sorted by key after the last re-assignment", not unsorted, node=e.node,
+                   construct="indexed flush leaves the frame unsorted",
+                   msg=f"{cname}.{flush} re-assigns the indexed frame (new keys appended at the end) without sorting it again: rows are no longer ordered by key",
+                   path=f"entry {fflush.fq} -> has_index() branch -> exit line {e.line}")
+        ok = b == "empty" and "old" in fr or (b == "cleared" and {"old", "buf"} <= fr)
+        why = ("the buffer is not known empty and was not reset" if b not in ("empty", "cleared") else
+               "the frame does not hold the buffered rows" if "buf" not in fr and b == "cleared" else
+               "the frame does not hold the rows it had before" if "old" not in fr else "")
+        ctx.ob("C19-R6", fflush.fq, "flush exit: buffer empty at entry, or frame := old rows + buffered rows and buffer reset afterwards", ok, node=e.node,
+               construct=f"flush exit without merge ({why})" if not ok else "flush exit",
+               msg=f"{cname}.{flush} can return with {why}: rows are lost, duplicated on the next flush, or never become visible",
+               path=f"entry {fflush.fq} -> exit line {e.line}")
+    n_exc = 0
+    for e in exits:
+        if e.kind != "exc":
+            continue
+        n_exc += 1
+        b, fr, _env, _ix = e.state
+        ok = b in ("full", "empty") or "buf" in fr
+        ctx.ob("C19-R6", fflush.fq, "failed flush: the buffered rows are still in the buffer or already in the frame", ok, node=e.node,
+               construct="flush can fail after detaching the buffered rows",
+               msg=f"{cname}.{flush} resets self.{buf} before the frame holds its rows: if the merge raises, the rows inserted since the last read silently vanish",
+               path=f"entry {fflush.fq} -> raising statement line {e.line}")
+    ctx.floor("C19-R6", "exceptional exits of the flush method", n_exc, 2)
+    for n in sem.order_faults:
+        ctx.ob("C19-R6", fflush.fq, "old rows precede buffered rows in every concatenation", False, node=n, construct="buffered rows concatenated before old rows",
+               msg=f"{cname}.{flush} puts buffered rows before the rows already in the frame: insertion order is not preserved")
+    ctx.floor("C19-R6", "normal exits of the flush method", n_exit, 2)
+    # (c) index state agrees with the frame: the method that builds the index records its columns after building; the one that resets it forgets them
+    idx_attr = None
+    for n in walk_local(repo.fn(f"{MOD}:{cname}.has_index").node) if f"{cname}.has_index" in m.funcs else []:
+        if isinstance(n, ast.Attribute) and isinstance(n.value, ast.Name) and n.value.id == "self":
+            idx_attr = n.attr
+    if idx_attr is None:
+        raise AnalysisError("index-state attribute not found (has_index)")
+    helper = next((f for f in methods if any(isinstance(d, ast.Name) and d.id == "staticmethod" for d in f.node.decorator_list) and
+                   any(isinstance(c.func, ast.Attribute) and c.func.attr == "set_index" for c in calls_in(f.node))), None)
+    if helper is None:
+        raise AnalysisError("index helper (static method calling DataFrame.set_index) not found")
+    n_idx = 0
+    for f in methods:
+        if f.name in ("__init__", flush) or f is helper:
+            continue
+        builds = [c for c in calls_in(f.node) if isinstance(c.func, ast.Attribute) and c.func.attr == helper.name]
+        resets = [c for c in calls_in(f.node) if isinstance(c.func, ast.Attribute) and c.func.attr == "reset_index" and dotted(c.func.value) != "self"]
+        stores = [n for n in walk_local(f.node) if isinstance(n, ast.Assign) and any(dotted(t) == f"self.{idx_attr}" for t in n.targets)]
+        fstores = [n for n in walk_local(f.node) if isinstance(n, ast.Assign) and any(dotted(t) == f"self.{frame}" for t in n.targets)]
+        if builds:
+            n_idx += 1
+            ctx.instance("C19-R6", f.fq, "index build records columns")
+            arg = src(builds[0].args[1]) if len(builds[0].args) > 1 else None
+            ok = any(src(s.value) == arg and _dominates_exit(s, f.node) for s in stores)
+            ctx.ob("C19-R6", f.fq, f"after building the index on {arg}, self.{idx_attr} := {arg} unconditionally", ok, node=builds[0],
+                   construct=f"index built without recording self.{idx_attr}",
+                   msg=f"{cname}.{f.name} indexes the frame but does not record the index columns: later flushes append instead of upserting and has_index() lies")
+        if resets:
+            n_idx += 1
+            ctx.instance("C19-R6", f.fq, "index reset forgets columns")
+            ok = any(isinstance(s.value, ast.Constant) and s.value.value is None for s in stores)
+            ctx.ob("C19-R6", f.fq, f"after resetting the index, self.{idx_attr} := None", ok, node=resets[0], construct=f"index reset without clearing self.{idx_attr}",
+                   msg=f"{cname}.{f.name} drops the index but keeps self.{idx_attr}: later flushes upsert against a frame that has no index")
+            okf = any(any(c is r for c in calls_in(s)) for s in fstores for r in resets)
+            ctx.ob("C19-R6", f.fq, f"the re-set frame is stored back into self.{frame}", okf, node=resets[0], construct="reset_index result not stored",
+                   msg=f"{cname}.{f.name} computes the un-indexed frame but does not store it: the table keeps its index while claiming to have none")
+    ctx.floor("C19-R6", "index build/reset methods", n_idx, 2)
+
+
+def _dominates_exit(stmt, fnode):
+    """the statement sits at function level (not under a branch / loop / handler)"""
+    return getattr(stmt, "_parent", None) is fnode
+
+
 def check(ctx):
     repo = ctx.repo
     cg = CallGraph(repo)
@@ -118,6 +362,7 @@ def check(ctx):
     ctx.rule("C19-R2", "WHO-MAY: the frame attribute and the insert buffer are accessed only inside the table class")
     ctx.rule("C19-R3", "index reset drops exactly the helper columns index creation adds (same naming expression)")
     ctx.rule("C19-R4", "state the flush reads (index columns, column list) is written only after the buffer has been flushed")
+    ctx.rule("C19-R6", "flush integrity: inserts append their argument to the buffer; the flush returns early only when the buffer is empty, otherwise the frame is re-assigned from old rows followed by buffered rows and the buffer is reset afterwards; index build/reset keep the index-state attribute in step with the frame")
     ctx.rule("C19-R5", "consumers call the flushing accessor at every use: its result is never stored in an attribute/long-lived container and the call is not conditional")
 
     methods = [f for f in m.funcs.values() if f.cls == cname and f.parent is None]
@@ -183,6 +428,8 @@ def check(ctx):
                        msg=f"{cname}.{f.name} changes self.{node.attr}, which {flush}() reads, while inserts are still buffered: the pending rows are then merged under the new setting",
                        path=f"entry {f.fq} -> line {node.lineno}")
     ctx.floor("C19-R1", "frame uses / watched stores examined", n_uses, 6)
+
+    _flush_integrity(ctx, repo, m, cname, buf, flush, frame, methods)
 
     # ---- R2 encapsulation (whole repository)
     inside = outside = 0
@@ -307,6 +554,22 @@ SEEDS = [
          "            if v.buffer or k not in self._frames:\n                self._frames[k] = v.get_dataframe()\n            locals()[k] = self._frames[k]", rule="C19-R5"),
     Seed("kvs-reads-df-directly", "fault", "db/sys_fn_kvs", "self.cache.update(key_to_file_path(x), y.get_dataframe())", "self.cache.update(key_to_file_path(x), y._df)", rule="C19-R2"),
     Seed("rename-helper-col", "fault", MOD, '            iic = [f"{ic}_idx" for ic in self.idx_cols]', '            iic = [f"{ic}_index" for ic in self.idx_cols]', rule="C19-R3"),
+    Seed("commit-extra-early-return", "fault", MOD, "        if not self.buffer:\n            return\n        if self.has_index():", "        if not self.buffer or self._df.empty:\n            return\n        if self.has_index():", rule="C19-R6"),
+    Seed("commit-buffer-not-reset", "fault", MOD, "            self._df = pd.DataFrame(values, columns=self.columns, copy=False)\n        self.buffer = []", "            self._df = pd.DataFrame(values, columns=self.columns, copy=False)", rule="C19-R6"),
+    Seed("commit-reset-before-merge", "fault", MOD, "        if self.has_index():\n            buffer_df = pd.DataFrame(self.buffer, columns=self.columns)", "        rows, self.buffer = self.buffer, []\n        if self.has_index():\n            buffer_df = pd.DataFrame(self.buffer, columns=self.columns)", rule="C19-R6"),
+    Seed("commit-detach-before-merge", "fault", MOD, "        if self.has_index():\n            buffer_df = pd.DataFrame(self.buffer, columns=self.columns)\n",
+         "        rows, self.buffer = self.buffer, []\n        if self.has_index():\n            buffer_df = pd.DataFrame(rows, columns=self.columns)\n", rule="C19-R6"),
+    Seed("commit-concat-order", "fault", MOD, "np.concatenate([self._df.values] + [y.reshape(1, -1) for y in self.buffer])", "np.concatenate([y.reshape(1, -1) for y in self.buffer] + [self._df.values])", rule="C19-R6"),
+    Seed("commit-unindexed-drops-old", "fault", MOD, "np.concatenate([self._df.values] + [y.reshape(1, -1) for y in self.buffer])", "np.concatenate([y.reshape(1, -1) for y in self.buffer])", rule="C19-R6"),
+    Seed("commit-indexed-unsorted", "fault", MOD, "            self._df.sort_index(inplace=True)\n        else:", "        else:", rule="C19-R6"),
+    Seed("refactor-commit-sort-assign", "refactor", MOD, "            self._df.sort_index(inplace=True)\n        else:", "            self._df = self._df.sort_index()\n        else:"),
+    Seed("insert-prepends", "fault", MOD, "        self.buffer.append(y)", "        self.buffer.insert(0, y)", rule="C19-R6"),
+    Seed("insert-skips-when-indexed", "fault", MOD, "        self.buffer.append(y)", "        if self.idx_cols is not None and len(self.buffer) > 1024:\n            return\n        self.buffer.append(y)", rule="C19-R6"),
+    Seed("set-index-forgets-cols", "fault", MOD, "        self._df = self._create_index_from_cols(df, idx_cols)\n        self.idx_cols = idx_cols", "        self._df = self._create_index_from_cols(df, idx_cols)", rule="C19-R6"),
+    Seed("reset-keeps-idx-cols", "fault", MOD, "            self._df.drop(columns=iic, inplace=True)\n            self.idx_cols = None", "            self._df.drop(columns=iic, inplace=True)", rule="C19-R6"),
+    Seed("reset-result-not-stored", "fault", MOD, "        self._df = df.reset_index()", "        df.reset_index()", rule="C19-R6"),
+    Seed("refactor-commit-len-test", "refactor", MOD, "        if not self.buffer:\n            return\n        if self.has_index():", "        if len(self.buffer) == 0:\n            return\n        if self.has_index():"),
+    Seed("refactor-commit-rows-local", "refactor", MOD, "            values = np.concatenate([self._df.values] + [y.reshape(1, -1) for y in self.buffer])", "            rows = [y.reshape(1, -1) for y in self.buffer]\n            old = self._df.values\n            values = np.concatenate([old] + rows)"),
     Seed("refactor-commit-then-df", "refactor", MOD, "        v = self.get_dataframe().get(x)", "        self.commit()\n        frame = self._df\n        v = frame.get(x)"),
     Seed("refactor-schema-columns", "refactor", MOD, "        return np.array(self._df.columns, dtype=object)", "        cols = self._df.columns\n        return np.array(cols, dtype=object)"),
     Seed("refactor-len-temp", "refactor", MOD, "        return len(self.get_dataframe())", "        df = self.get_dataframe()\n        return len(df)"),
